@@ -59,3 +59,9 @@ package hash
 //@ ensures[copied] isnil(result) && noescape(state) && len(h.state) == len(state) && forall(j, 0, len(state), h.state[j] == state[j])
 //@ modifies h.state
 //@ end
+
+//@ func NewMerkleDamgardHasher
+//@ option nomerge
+//@ ensures[copied] noescape(initialState)
+//@ modifies nothing
+//@ end
